@@ -18,14 +18,15 @@ from ..translate import ir
 from . import c01
 
 THEOREMS = ["generated_wf", "conj_square_c64", "conj_square_c128", "even_square_real", "even_absolute_real", "soft_sign_laws",
-            "symmetry_analyser_sound", "conj_descs", "odd_descs", "abs_descs", "conj_symmetric", "odd_symmetric", "absolute_symmetric"]
+            "symmetry_analyser_sound", "conj_descs", "conj_imag_descs", "odd_descs", "odd_real_descs", "odd_partial_descs", "abs_descs",
+            "conj_symmetric", "conj_symmetric_imag", "odd_symmetric", "odd_symmetric_real", "odd_partial", "absolute_symmetric"]
 SEARCHED = ["conjugate symmetry of the 13 libm-based complex algorithms", "oddness of asin/asinh/atan/atanh (complex, real)", "rotation identities asinh/asin, atan/atanh, acosh/acos",
             "imag acos = -imag asin"]
 TRUSTED = [
     "Lean 4 kernel; axioms propext, Classical.choice, Quot.sound only",
     "translator + generated-implementation tie as in C01/C02 (3-way bit-level correspondence each run)",
     "conj_symmetric/odd_symmetric/absolute_symmetric assume of the transcendental oracle only LibOK: its results do not depend on NaN payload/sign, and "
-    "atan2(-a, b) = -atan2(a, b) bit for bit (C99 Annex F); numpy.arctan2 is sampled against this each run (obligation libm-assumption); in the search "
+    "atan2(-a, b) = -atan2(a, b), cos(-a) = cos(a), sin(-a) = -sin(a), sign(-a) = -sign(a) for a != 0, bit for bit; the numpy functions are sampled against this each run (obligation libm-assumption); in the search "
     "platform libm oddness/evenness (atan2, sin, cos, log1p, ...) is observed, not assumed",
 ]
 LEVEL_TEXT = ("Partial proof. Theorems (bit-exact softfloat, regenerated programs, EVERY input pattern incl. NaN/inf/zeros/subnormals): complex `square` commutes with "
@@ -33,12 +34,14 @@ LEVEL_TEXT = ("Partial proof. Theorems (bit-exact softfloat, regenerated program
               "of the softfloat proved for every format (|-a| = |a|, a+b = b+a, ab = ba, a-(-b) = a+b, (-a)b = -(ab) up to the single NaN). "
               "Through a symmetry analyser proved sound once for every program, format and oracle (symmetry_analyser_sound: an abstract interpretation that tracks, per node, "
               "same / negated / boolean-negated under a sign substitution of the inputs, with the rules for abs, mul, div, comparisons against 0, select on a flipped "
-              "condition between x and -x, atan2) and kernel-evaluated on the regenerated programs: f(conj z) = conj f(z) for acos, acosh, asin, asinh, sqrt, absolute and "
-              "f(-z) = -f(z) for asin, asinh (complex64 and complex128), for EVERY input whose negated parts are neither NaN nor +-0, every oracle satisfying LibOK, "
-              "whenever the evaluations are defined. "
-              "The remaining identities (conj/odd for atan, atanh, log*, exp, real asin/asinh; rotations; acos/asin; evenness of complex square) are decided by oracle-free "
-              "bit-pattern search on the generated implementation.")
-LEVEL_NOTE = "Proved: square/absolute (all inputs), conj symmetry of 6 and oddness of 2 libm-based complex algorithms (non-zero non-NaN negated parts). Search only: the other identities."
+              "condition between x and -x or between c and -c, x+x, (c+x)(c-x), a==c||a==-c, tests known false off zero, atan2/cos/sin/sign) and kernel-evaluated on the "
+              "regenerated programs: f(conj z) = conj f(z) for acos, acosh, asin, asinh, atan, exp, sqrt, square, absolute and for the imaginary parts of atanh, log, log10, "
+              "log1p, log2; f(-z) = -f(z) for asin, asinh (complex and real) and for the real part of atan and the imaginary parts of atanh and acos; real part of acosh and "
+              "imaginary part of square even — complex64/complex128/float32/float64, for EVERY input whose negated parts are neither NaN nor +-0, every oracle satisfying "
+              "LibOK, whenever the evaluations are defined. "
+              "The remaining identities (undecided components — compensated sums whose exact cancellations the analyser does not follow; inputs with a zero or NaN negated "
+              "part; rotations; acos/asin) are decided by oracle-free bit-pattern search on the generated implementation.")
+LEVEL_NOTE = "Proved: square/absolute (all inputs); conj symmetry of 9 complex algorithms fully and 5 in the imaginary part; oddness of asin/asinh (complex, real) and of single components of 5 more (non-zero non-NaN negated parts). Search only: the other identities."
 TECHNIQUE = "Lean 4: softfloat sign laws, a verified symmetry analyser (abstract interpretation, soundness theorem) kernel-evaluated on programs regenerated from source; oracle-free bit-pattern search for the rest"
 
 ODD_C = ["asin", "asinh", "atan", "atanh"]
@@ -240,20 +243,31 @@ def generate(ctx):
 
 
 def check_libok(ctx, n=20000):
-    """LibOK.atan2_odd sampled on the platform libm the generated implementation calls."""
+    """LibOK (atan2_odd, cos_even, sin_odd, sign_odd) sampled on the platform functions the generated implementation calls."""
     bad = []
     rng = numpy.random.default_rng(ctx.seed)
     for fmt, w, ut in (("float32", 32, numpy.uint32), ("float64", 64, numpy.uint64)):
-        a = rng.integers(0, 1 << (w - 1), size=n, dtype=ut).view(fpx.NPF[fmt])
-        b = rng.integers(0, 1 << w - 1, size=n, dtype=ut).view(fpx.NPF[fmt]) * rng.choice([-1, 1], size=n).astype(fpx.NPF[fmt])
+        ft = fpx.NPF[fmt]
+        a = rng.integers(0, 1 << (w - 1), size=n, dtype=ut).view(ft)
         with numpy.errstate(all="ignore"):
-            r1 = numpy.arctan2(a, b)
-            r2 = numpy.arctan2(-a, b)
-        ok = (r2.view(ut) == (-r1).view(ut)) | (numpy.isnan(r1) & numpy.isnan(r2))
-        for i in numpy.nonzero(~ok)[0][:3]:
-            bad.append(dict(fmt=fmt, a=int(a.view(ut)[i]), b=int(b.view(ut)[i])))
-        ctx.evaluations += n
-    ctx.obligation("libm-assumption: numpy.arctan2(-a, b) == -numpy.arctan2(a, b) bit for bit (LibOK.atan2_odd) on sampled patterns", not bad, kind="correspondence")
+            b = rng.integers(0, 1 << (w - 1), size=n, dtype=ut).view(ft) * rng.choice([-1, 1], size=n).astype(ft)
+        # moderate arguments too (random patterns are mostly huge or tiny)
+        a[: n // 2] = (rng.standard_normal(n // 2) * 10 ** rng.uniform(-3, 3, n // 2)).astype(ft)
+
+        def same(r2, r1):
+            return (r2.view(ut) == r1.view(ut)) | (numpy.isnan(r1) & numpy.isnan(r2))
+
+        with numpy.errstate(all="ignore"):
+            checks = [("atan2_odd", same(numpy.arctan2(-a, b), -numpy.arctan2(a, b))),
+                      ("cos_even", same(numpy.cos(-a), numpy.cos(a))),
+                      ("sin_odd", same(numpy.sin(-a), -numpy.sin(a))),
+                      ("sign_odd", same(numpy.sign(-a), -numpy.sign(a)) | (a == 0))]
+        for name, ok in checks:
+            for i in numpy.nonzero(~ok)[0][:3]:
+                bad.append(dict(law=name, fmt=fmt, a=int(a.view(ut)[i]), b=int(b.view(ut)[i])))
+            ctx.evaluations += n
+    ctx.obligation("libm-assumption: numpy arctan2 odd in its first argument, cos even, sin odd, sign odd off zero — bit for bit on sampled patterns (LibOK)", not bad,
+                   kind="correspondence")
     return bad
 
 
@@ -262,8 +276,9 @@ def run(ctx):
                 "and infinities); every identity evaluated on every point outside its branch-cut exclusion; non-trivial = an identity instance checked; distinct by (identity, input)")
     generate(ctx)
     broken = ctx.lean_stage(["FAVerif.Props.C03"], THEOREMS)
-    if check_libok(ctx):
-        broken.append(ctx.broken("libm-assumption:atan2_odd", "numpy.arctan2 is not odd in its first argument on this platform"))
+    lb = check_libok(ctx)
+    if lb:
+        broken.append(ctx.broken("libm-assumption:LibOK", "platform libm violates an assumed parity law: " + json.dumps(lb[:3])))
     n = ctx.scale(1500, 200000)
     with multiprocessing.Pool(2) as pool:
         results = pool.map(work, [("complex64", n, ctx.seed), ("complex128", n, ctx.seed)])
